@@ -17,6 +17,7 @@ def generate(rng, tier):
     n = 300 if tier == 'quick' else 6000
     o = gen.Opts(max_fields=6, max_items=7, p_enum=0.3, p_extern_type=0.6, p_base=0.4, p_vftable=0.35, p_vft_size=0.4,
                  p_index=0.4, p_impl=0.1, p_backend=0.0, p_extern_val=0.0, p_doc=0.05, p_size_attr=0.6)
+    o.p_nearmiss = 0.04
     return std_worlds(rng, n, o, perturb=0.2)
 
 def judge(c, impl, model):
